@@ -7,8 +7,65 @@
    not yet covered by a theorem are decided by the implementation <-> specification <->
    hardware differential run only (listed as unproved_forms in the evidence). *)
 From Coq Require Import ZArith Bool List.
-From AxV Require Import Bits Outcome Codes Iced State Rt Mem Trace Exec ExecP FrameTac FrameP ISA CodeSem IsaP.
-From AxG Require Import Flags Regs Operand Helpers Dispatch Frame.
+From AxV Require Import Bits Outcome Codes Iced State Rt Mem Trace Exec ExecP FrameTac FrameP RegFile RegsP ISA CodeSem IsaP FlagsP AluP.
+From AxG Require Import Flags Regs Operand Helpers Dispatch Frame I_add I_and.
 Local Open Scope Z_scope.
 
+(* The flag helper of the emulator (state/flags.rs set_flags!, one instance per operand width,
+   regenerated on every run): called the way every arithmetic instruction calls it - flags_to_set
+   = SF|ZF|PF plus the carry / overflow bits the operation computed, flags_to_clear = CF|OF - it
+   replaces exactly the five arithmetic flags by (CF, OF, sign bit of the result, result = 0,
+   even parity of the low byte) and keeps every other bit of RFLAGS.  For every result value,
+   every prior RFLAGS, both build configurations (the parity loop never overflows). *)
+Theorem C02_set_flags_64 : forall c cfb ofb r s, 0 <= rflags s < 2 ^ 64 ->
+  set_flags_u64 c (arith_fs cfb ofb) 2049 r s = (Ok tt, with_flags s ARITH (b2f cfb CF + b2f ofb OF + szp 64 r)).
+Proof. exact set_flags_u64_arith. Qed.
+Theorem C02_set_flags_32 : forall c cfb ofb r s, 0 <= rflags s < 2 ^ 64 ->
+  set_flags_u32 c (arith_fs cfb ofb) 2049 r s = (Ok tt, with_flags s ARITH (b2f cfb CF + b2f ofb OF + szp 32 r)).
+Proof. exact set_flags_u32_arith. Qed.
+Theorem C02_set_flags_16 : forall c cfb ofb r s, 0 <= rflags s < 2 ^ 64 ->
+  set_flags_u16 c (arith_fs cfb ofb) 2049 r s = (Ok tt, with_flags s ARITH (b2f cfb CF + b2f ofb OF + szp 16 r)).
+Proof. exact set_flags_u16_arith. Qed.
+Theorem C02_set_flags_8 : forall c cfb ofb r s, 0 <= rflags s < 2 ^ 64 ->
+  set_flags_u8 c (arith_fs cfb ofb) 2049 r s = (Ok tt, with_flags s ARITH (b2f cfb CF + b2f ofb OF + szp 8 r)).
+Proof. exact set_flags_u8_arith. Qed.
+
+(* the carry and overflow bits ADD computes are the architectural ones: unsigned carry out of
+   bit 63 and signed overflow *)
+Theorem C02_add64_carry_overflow : forall c d sv,
+  0 <= d < 2 ^ 64 -> 0 <= sv < 2 ^ 64 ->
+  (let v_result := wadd U64 d sv in
+   t1_v <~ add_chk c U128 (cast U64 U128 d) (cast U64 U128 sv) ;;
+   Ok (v_result,
+       Z.lor (if negb (Z.land v_result 9223372036854775808 =? Z.land d 9223372036854775808) &&
+                 negb (Z.land v_result 9223372036854775808 =? Z.land sv 9223372036854775808)
+              then FLAG_OF else 0)
+             (if negb (Z.land t1_v 18446744073709551616 =? 0) then FLAG_CF else 0)))%out
+  = Ok ((d + sv) mod 2 ^ 64,
+        Z.lor (b2f (negb (fits_signed 64 (sgn 64 d + sgn 64 sv))) FLAG_OF) (b2f (2 ^ 64 <=? d + sv) FLAG_CF)).
+Proof. exact add64_closure. Qed.
+
+(* complete refinements: ADD / AND r/m64, r64 on registers are the ISA specification's
+   exec_alu - result, all five flags, every other flag bit, nothing else *)
+Theorem C02_add_rm64_r64 : forall c i s,
+  wf_regs s -> 0 <= rflags s < 2 ^ 64 -> i_op_count i = 2 ->
+  i_op_kind i 0 = OK_Register -> i_op_kind i 1 = OK_Register ->
+  is_gpr64 (i_op_register i 0) = true -> is_gpr64 (i_op_register i 1) = true ->
+  i_code i = C_Add_rm64_r64 ->
+  exists s', instr_add_rm64_r64 c i s = (Ok tt, s') /\ isa_exec (SAlu ADD 64) i s = IDone s' 0.
+Proof. exact add_rm64_r64_refines. Qed.
+
+Theorem C02_and_rm64_r64 : forall c i s,
+  wf_regs s -> 0 <= rflags s < 2 ^ 64 -> i_op_count i = 2 ->
+  i_op_kind i 0 = OK_Register -> i_op_kind i 1 = OK_Register ->
+  is_gpr64 (i_op_register i 0) = true -> is_gpr64 (i_op_register i 1) = true ->
+  i_code i = C_And_rm64_r64 ->
+  exists s', instr_and_rm64_r64 c i s = (Ok tt, s') /\ isa_exec (SAlu AND 64) i s = IDone s' 0.
+Proof. exact and_rm64_r64_refines. Qed.
+
 Print Assumptions cond_matches_sdm.
+Print Assumptions C02_set_flags_64.
+Print Assumptions C02_set_flags_8.
+Print Assumptions C02_add64_carry_overflow.
+Print Assumptions C02_add_rm64_r64.
+Print Assumptions C02_and_rm64_r64.
